@@ -99,7 +99,9 @@ func runOctosql(dir string, stdin []byte, args ...string) cliResult {
 			[]byte(strings.Join(args, " ")+"\n"+res.Stderr), 0o644)
 		return res
 	}
-	if strings.Contains(res.Stderr, "panic:") || strings.Contains(res.Stderr, "goroutine ") || strings.Contains(res.Stderr, "fatal error:") {
+	// a Go runtime panic / fatal error: exit status 2 and a goroutine dump (the `panic()` SQL function and
+	// cobra's error path print "Error: ... panic: ..." with exit status 1 and no dump)
+	if strings.Contains(res.Stderr, "goroutine ") && (strings.Contains(res.Stderr, "panic:") || strings.Contains(res.Stderr, "fatal error:")) {
 		res.Panicked = true
 	}
 	return res
